@@ -779,3 +779,21 @@ def callee_is(prog, func, call, *names):
                     dn == "builtins." + cand:
                 return True
     return False
+
+
+def delayed_task_of(prog, func, call, *names):
+    """Is ``call`` a joblib task ``delayed(f)(...)`` whose ``f`` resolves to
+    one of ``names``?  (``delayed`` and ``f`` through any import style; K9
+    has already replaced ``t = delayed(f); t(...)`` by this form.)"""
+    fn = call.func
+    if not isinstance(fn, ast.Call) or not fn.args:
+        return False
+    try:
+        inner = prog.dotted(func, func.module, fn.func)
+    except Exception:  # noqa: BLE001
+        inner = None
+    if inner != "joblib.delayed":
+        return False
+    fake = ast.Call(func=fn.args[0], args=[], keywords=[])
+    ast.copy_location(fake, call)
+    return callee_is(prog, func, fake, *names)
